@@ -34,6 +34,60 @@ func vC02SharedSig(owner string, covered uint16, zone string, ttl uint32, exp ti
 	}
 }
 
+// vC02SharedObs reads the shared state behind the Store (in-package access, read-only): the zone's SOA
+// expiry, its NSEC entries in FIFO (admission) order with their expiries, the zone's subtree cuts in FIFO
+// order and how many of them are live.  Expiries of the proof index are exact (injected clock, whole
+// seconds since the case's base instant); cuts run on the wall clock and are only counted.
+func vC02SharedObs(c *Cache, zone string, base time.Time) (coq, desc string, cutBytes int64) {
+	dp := c.store.denialProofs
+	dp.mu.RLock()
+	soa := "None"
+	var recs []string
+	n, sum := 0, int64(0)
+	for el := dp.fifo.Front(); el != nil; el = el.Next() {
+		e, _ := el.Value.(*denialProofEntry)
+		if e == nil || e.zoneKey.zone != zone || e.zoneKey.qclass != dns.ClassINET {
+			continue
+		}
+		exp := int64(e.expires.Sub(base) / time.Second)
+		if e.id.kind == denialProofSOA {
+			soa = fmt.Sprintf("(Some (%d)%%Z)", exp)
+			recs = append(recs, fmt.Sprintf("SOA@%d", exp))
+			continue
+		}
+		n++
+		sum += exp
+		recs = append(recs, fmt.Sprintf("%s@%d", e.id.owner, exp))
+	}
+	dp.mu.RUnlock()
+	cc := c.store.nxDomainCuts
+	cc.mu.RLock()
+	var cuts []string
+	ncut, nlive := 0, 0
+	now := time.Now()
+	if zs := cc.zones[nxDomainCutZoneKey{zone: zone, qclass: dns.ClassINET}]; zs != nil {
+		for el := zs.fifo.Front(); el != nil; el = el.Next() {
+			e, _ := el.Value.(*nxDomainCutEntry)
+			if e == nil {
+				continue
+			}
+			ncut++
+			live := now.Before(e.expires)
+			if live {
+				nlive++
+			}
+			if e.wireBytes > cutBytes {
+				cutBytes = e.wireBytes
+			}
+			cuts = append(cuts, fmt.Sprintf("%s(live=%v,%dB)", e.deniedName, live, e.wireBytes))
+		}
+	}
+	cc.mu.RUnlock()
+	coq = fmt.Sprintf("(mk_shobs %s %d (%d) %d %d)", soa, n, sum, ncut, nlive)
+	desc = fmt.Sprintf("index[%s] cuts[%s]", strings.Join(recs, " "), strings.Join(cuts, " "))
+	return
+}
+
 func TestVerifC02Shared(t *testing.T) {
 	tr := vC02Open(t)
 	defer tr.f.Close()
@@ -45,6 +99,11 @@ func TestVerifC02Shared(t *testing.T) {
 		g.newPool(true)
 		apex := vC02Name{[]byte{"abcxyz"[r.Intn(6)]}}
 		z := g.genZone(apex, 2+r.Intn(7))
+		if r.Intn(3) == 0 { // zones at and above the per-zone entry limit of the proof index (8 entries incl. the SOA)
+			for try := 0; try < 12 && len(z.nodes) < 8; try++ {
+				z = g.genZone(apex, 9+r.Intn(4))
+			}
+		}
 		vC02SharedCase(t, tr, g, z)
 	}
 }
@@ -54,8 +113,12 @@ func vC02SharedCase(t *testing.T, tr *vC02Trace, g *vC02Gen, z *vC02Zone) {
 	zoneStr := vC02Pres(z.apex)
 	chain := z.nsecChain()
 	cands := g.candidates(z)
-	cache := New(&config.Config{CacheSize: 4096, Expire: 3600})
+	// sizing as production derives it from CacheSize: per-zone entry limits of the proof index / the cut
+	// cache are 8/8 at 4096 and 16/32 at 32768; the model gets them as read from the real Store
+	cacheSize := []int{4096, 4096, 4096, 4096, 4096, 4096, 4096, 32768, 32768, 32768}[r.Intn(10)]
+	cache := New(&config.Config{CacheSize: cacheSize, Expire: 3600})
 	defer cache.Stop()
+	limIndex, limCuts := cache.store.denialProofs.maxEntriesPerZone, cache.store.nxDomainCuts.maxEntriesPerZone
 	base := time.Now()
 	var offset int64 // model clock, seconds
 	cache.store.denialProofs.now = func() time.Time { return base.Add(time.Duration(offset) * time.Second) }
@@ -71,6 +134,16 @@ func vC02SharedCase(t *testing.T, tr *vC02Trace, g *vC02Gen, z *vC02Zone) {
 	goFail := ""
 	synthCount, admitCount := 0, 0
 	nops := 8 + r.Intn(8)
+	if r.Intn(5) == 0 { // long histories: enough admitted NXDOMAINs to fill the zone's cut FIFO
+		nops = 16 + r.Intn(12)
+	}
+	// cut-heavy histories: many admitted NXDOMAINs with thin proofs (the index stays too sparse to
+	// synthesize), so that the zone's cut FIFO overflows its entry limit
+	cutHeavy := r.Intn(5) == 0
+	if cutHeavy {
+		nops = 20 + r.Intn(10)
+	}
+	oversize := false
 	for o := 0; o < nops; o++ {
 		if r.Intn(5) == 0 && len(deadlines) > 0 { // advance the clock, away from (or exactly onto) every deadline
 			var s int64
@@ -117,7 +190,7 @@ func vC02SharedCase(t *testing.T, tr *vC02Trace, g *vC02Gen, z *vC02Zone) {
 			}
 			qtype = []uint16{dns.TypeA, dns.TypeAAAA, dns.TypeTXT, dns.TypeMX, dns.TypeDS, dns.TypeNS}[r.Intn(6)]
 			k := fmt.Sprintf("%s/%d", vC02Key(q), qtype)
-			if vC02Sub(q, z.apex) && !asked[k] {
+			if vC02Sub(q, z.apex) && !asked[k] && !(cutHeavy && try < 20 && z.existsHow(q) != "") {
 				asked[k] = true
 				found = true
 			}
@@ -164,7 +237,16 @@ func vC02SharedCase(t *testing.T, tr *vC02Trace, g *vC02Gen, z *vC02Zone) {
 				recs = append(recs, chain[r.Intn(len(chain))])
 			}
 			r.Shuffle(len(recs), func(i, j int) { recs[i], recs[j] = recs[j], recs[i] })
+			if cutHeavy && len(recs) > 2 {
+				recs = recs[:1+r.Intn(2)]
+			}
+			if len(recs) > 10 { // keeps every cut below the per-entry byte budget (see vC02SharedObs)
+				recs = recs[:10]
+			}
 			marked, aggressive, resCD = r.Intn(20) > 0, r.Intn(7) > 0, r.Intn(30) == 0
+			if cutHeavy && r.Intn(4) > 0 {
+				marked, aggressive, resCD = true, true, false
+			}
 			neg = new(dns.Msg)
 			neg.SetRcode(req, rcode)
 			neg.RecursionAvailable = true
@@ -227,14 +309,21 @@ func vC02SharedCase(t *testing.T, tr *vC02Trace, g *vC02Gen, z *vC02Zone) {
 			admitCount++
 			deadlines = append(deadlines, offset+min(ttl, maxTTL))
 		}
-		ops = append(ops, fmt.Sprintf("ShExchange %s %d %v %v %s %s", vC02Coq(q), qtype, cd, ecs, dsCoq, synth))
-		desc = append(desc, fmt.Sprintf("t=%d %s %s cd=%v ecs=%v downstream:[%s] -> synthesized=%s [truth: exists=%q nodata=%v]", offset, qs, dns.TypeToString[qtype], cd, ecs, dsDesc, synth, how, ndTrue))
+		obsCoq, obsDesc, cutBytes := vC02SharedObs(cache, zoneStr, base)
+		if cutBytes > nxDomainCutBudgetBytesPerEntry {
+			// the model has the entry limits only; a cut above the per-entry byte budget could make the
+			// byte limit bind first: such a history is outside the modelled family
+			oversize = true
+		}
+		ops = append(ops, fmt.Sprintf("ShExchange %s %d %v %v %s %s %s", vC02Coq(q), qtype, cd, ecs, dsCoq, synth, obsCoq))
+		desc = append(desc, fmt.Sprintf("t=%d %s %s cd=%v ecs=%v downstream:[%s] -> synthesized=%s [truth: exists=%q nodata=%v] state after: %s", offset, qs, dns.TypeToString[qtype], cd, ecs, dsDesc, synth, how, ndTrue, obsDesc))
 	}
 	tr.emit(map[string]any{
-		"k":          "shared-history",
-		"coq":        fmt.Sprintf("(CaseShared %s (%d) [%s])%%N", z.coq(), maxTTL, strings.Join(ops, ";")),
-		"go_fail":    goFail,
-		"nontrivial": synthCount > 0 && admitCount > 0,
-		"desc":       map[string]any{"zone": z.desc(), "history": desc},
+		"k":            "shared-history",
+		"coq":          fmt.Sprintf("(CaseShared %s (%d) %d %d [%s])%%N", z.coq(), maxTTL, limIndex, limCuts, strings.Join(ops, ";")),
+		"inconclusive": oversize,
+		"go_fail":      goFail,
+		"nontrivial":   synthCount > 0 && admitCount > 0,
+		"desc":         map[string]any{"zone": z.desc(), "limits": fmt.Sprintf("index %d entries/zone, cuts %d/zone", limIndex, limCuts), "history": desc},
 	})
 }
